@@ -350,7 +350,7 @@ fn run_case(line: &str) -> String {
             let mut dec1: Option<LzmaDecoder> = None;
             let mut dec2: Option<Lzma2Decoder> = None;
             if is2 {
-                dec2 = Some(Lzma2Decoder::new());
+                dec2 = Some(if get(&m, "ctor", "new") == "default" { Lzma2Decoder::default() } else { Lzma2Decoder::new() });
                 b.push_str("new:ok");
             } else {
                 let props = LzmaProperties {
